@@ -38,7 +38,7 @@ class C06(Prop):
         metas = {}
         for i in range(n):
             sid = "c06_%d" % i
-            kind = rng.choice(["valid", "valid", "bytewise", "biterr", "biterr", "heavy", "noise", "noise", "datagram", "wrap", "trunc"])
+            kind = rng.choice(["valid", "valid", "bytewise", "biterr", "biterr", "heavy", "noise", "noise", "datagram", "wrap", "trunc", "midtrunc", "midtrunc"])
             mode = rng.choice(["close", "discard"])
             read = "stream"
             frag = rng.choice(FRAGS)
@@ -104,6 +104,25 @@ class C06(Prop):
                         sizes.append(len(p))
                 else:
                     sizes = [rng.range(1, 60) for _ in range(rng.range(0, 30))]
+            elif kind == "midtrunc":
+                # a frame cut short on the wire (header intact, body incomplete) immediately followed by
+                # complete frames: in discard mode every complete frame must still be found
+                frames = [self.rand_frame(rng) for _ in range(rng.range(2, 4))]
+                k = rng.below(len(frames) - 1)
+                if len(frames[k][3]) < 3:
+                    frames[k] = (frames[k][0], frames[k][1], frames[k][2], rng.bytes(rng.range(3, 250)))
+                enc = [dnp.link_frame(*f) for f in frames]
+                cut = rng.range(10, len(enc[k]) - 1)
+                enc2 = list(enc)
+                enc2[k] = enc[k][:cut]
+                damaged = {"frame": k, "cut": cut, "weight": 99}
+                if mode == "close":
+                    expect = list(range(k))
+                    stream = b"".join(enc2)
+                else:
+                    expect = [j for j in range(len(frames)) if j != k]
+                    stream = b"".join(enc2) + self.noise(rng, 300)
+                sizes = [rng.range(1, 300) for _ in range(rng.range(0, 8))]
             elif kind == "trunc":
                 # stream ends inside a frame: nothing but the complete frames may be delivered
                 cut = rng.range(1, len(enc[-1]) - 1)
